@@ -111,7 +111,7 @@ def run(ctx):
 
     # ---- Coq: the model's transcripts and footprints on the rounds that carry their description
     full = [r for r in rounds if r.get("desc") and r.get("scripts") and r["same"]]
-    limit = 8 if ctx.quick() else 500
+    limit = 6 if ctx.quick() else 500
     full = full[:limit]
     gterms, cases, refs = [], [], []
     skipped = 0
@@ -169,7 +169,7 @@ def run(ctx):
                                     "operation %s wrote the %s of %s node %d although its frozen flag was set (round %d)" % (st["op"], FIELD[w["field"]], kind, w["node"], r["round"]),
                                     {"module": r["src"], "seed": r["seed"], "round": r["round"], "sequence": q["steps"],
                                      "how": "c05 child -scenario footprints -seed %d -rounds %d (state read through starlark.VerifFrozen / VerifIterCount)" % (r["seed"], r["round"] + 1)})
-    fplimit = 8 if ctx.quick() else 300
+    fplimit = 6 if ctx.quick() else 300
 
     def fop(st):
         o, n = st["op"], st["node"]
